@@ -51,7 +51,7 @@ def compare_parse(sw, kind, A, C, text, fmt, case):
 
 
 def sweep_serial(sw, r, tier):
-    vals = corr_fmt.SERIAL_VALUES + [r.randrange(10 ** r.randint(1, 24)) for _ in range(10 if tier == "quick" else 120)]
+    vals = corr_fmt.SERIAL_VALUES + [r.randrange(10 ** r.randint(1, 24)) for _ in range(40 if tier == "quick" else 300)]
     for n in vals:
         a, c = ASerial.from_value(n), Serial.from_value(n)
         case = {"cls": "serial", "value": n}
@@ -71,7 +71,8 @@ def sweep_serial(sw, r, tier):
                 compare_parse(sw, "serial", ASerial, Serial, rc[1], fmt, case)
         for _ in range(3 if tier == "quick" else 8):
             toks = [r.choice(dirs) for _ in range(r.randint(1, 4))]
-            fmt = r.choice(SEPS).join(toks)
+            # an underscore separator next to %u (digits grouped by underscores) makes the string ambiguous
+            fmt = r.choice([x for x in SEPS if "_" not in x] if "%u" in toks else SEPS).join(toks)
             sw.note(["serial", n, fmt], "serial-format")
             ra, rc = outcome(lambda: a.format(fmt)), outcome(lambda: c.format(fmt))
             sw.check(ra == rc, "the renderings differ", {**case, "clause": "serial-render", "fmt": fmt}, rc, ra)
@@ -115,7 +116,7 @@ def rand_instant(r):
 
 
 def sweep_datetime(sw, r, tier):
-    n = 40 if tier == "quick" else 600
+    n = 150 if tier == "quick" else 1200
     vals = [rand_instant(r) for _ in range(n)] + [_dt.datetime(2024, 2, 29, 23, 59, 59), _dt.datetime(1000, 1, 1), _dt.datetime(9999, 12, 31, 23, 59, 59), _dt.datetime(1900, 1, 1)]
     for t in vals:
         a, c = ADatetime.from_value(t), Datetime.from_value(t)
@@ -148,13 +149,15 @@ def sweep_datetime(sw, r, tier):
             text = rc[1]
             compare_parse(sw, "datetime", ADatetime, Datetime, text, fmt, case)
             compare_parse(sw, "datetime", ADatetime, Datetime, corr_fmt.mutate(r, text, "0123456789-_: "), fmt, case)
+            if (t.month, t.day) == (2, 29) and not full and "%Y" not in toks:
+                continue  # 29 February without a year: the default year 1900 has no such day (the same for the classic formatter)
             back = outcome(lambda: ADatetime.parse(text, fmt))
             if back[0] == "ok":
                 ok = back[1].format(fmt) == text and (not full or back[1].value == t)
                 sw.check(ok, "the asset formatter does not read back what it printed", {**case, "clause": "asset-roundtrip", "fmt": fmt, "text": text}, [str(t), text], [str(back[1].value), back[1].format(fmt)])
             else:
                 sw.check(False, "the asset formatter rejects what it printed", {**case, "clause": "asset-roundtrip", "fmt": fmt, "text": text}, str(t), back)
-    for _ in range(30 if tier == "quick" else 400):
+    for _ in range(150 if tier == "quick" else 1000):
         t, u = r.choice(vals), r.choice(vals)
         td = _dt.timedelta(days=r.randrange(-300, 300), seconds=r.randrange(86400))
         at, au, ct, cu = ADatetime.from_value(t), ADatetime.from_value(u), Datetime.from_value(t), Datetime.from_value(u)
@@ -191,7 +194,7 @@ def run(tier: str, drv_ok: bool) -> dict:
     res = {"sweep": sweep(tier)}
     if drv_ok:
         r = rng("C18corr")
-        cs = corr_fmt.assets_cases(r, 80 if tier == "quick" else 1200)
+        cs = corr_fmt.assets_cases(r, 200 if tier == "quick" else 2000)
         res["corr_diffs"] = cs.run()
         res["corr_stats"] = cs.stats()
         res["corr_samples"] = cs.desc[:3]
